@@ -545,6 +545,20 @@ slice_size_bytes(const struct slice* slice)
     return (uint8_t*)slice->end - (uint8_t*)slice->beg;
 }
 
+/// Consume everything `reader` has not read yet. This takes at most 3
+/// iterations.
+static void
+flush_reader(struct channel* channel, struct channel_reader* reader)
+{
+    size_t nbytes;
+    do {
+        struct slice slice = channel_read_map(channel, reader);
+        nbytes = slice_size_bytes(&slice);
+        channel_read_unmap(channel, reader, nbytes);
+        TRACE("Flushed %llu bytes", nbytes);
+    } while (nbytes);
+}
+
 enum AcquireStatusCode
 acquire_stop(struct AcquireRuntime* self_)
 {
@@ -562,18 +576,15 @@ acquire_stop(struct AcquireRuntime* self_)
         ECHO(thread_join(&video->sink.thread));
         channel_accept_writes(&video->sink.in, 1);
 
-        // If the monitor has been initialized and its read region hasn't
-        // already been released, flush it. This takes at most 2 iterations.
+        // The workers have exited. Whatever they left unread in their input
+        // channels (they stop early on an abort or a device failure) belongs
+        // to this acquisition and must not be delivered in the next one.
+        flush_reader(&video->filter.in, &video->filter.reader);
+        flush_reader(&video->sink.in, &video->sink.reader);
+
+        // If the monitor has been initialized, flush it as well.
         if (video->monitor.reader.id) {
-            size_t nbytes;
-            do {
-                struct slice slice =
-                  channel_read_map(&video->sink.in, &video->monitor.reader);
-                nbytes = slice_size_bytes(&slice);
-                channel_read_unmap(
-                  &video->sink.in, &video->monitor.reader, nbytes);
-                TRACE("[stream: %d] Monitor flushed %llu bytes", i, nbytes);
-            } while (nbytes);
+            flush_reader(&video->sink.in, &video->monitor.reader);
         }
     }
     self->state = DeviceState_Armed;
